@@ -37,6 +37,16 @@
 //!     with a brand-new name, and seeded blocks of 1-4 redefined names (swaps, rotations, two
 //!     names for one code). The random mapped-set configurations of part (4) also bind built-in
 //!     names to other codes and write them in defsrc / all-except / deflayermap inputs.
+//! (9) the key names of a configuration are its own also when the process has read other
+//!     configurations before (c11_seq.rs): sequences of 2-5 configurations - with / without a
+//!     deflocalkeys-linux block, with only a block of another platform, with different blocks that
+//!     redefine built-in names (; ' [ - ...) and add new ones (ü ...) - are read through
+//!     cfg::new_from_str, cfg::new_from_file and by a real Kanata started from the files and sent
+//!     through them with lrld-next (real handle_time_ticks -> do_live_reload), without resetting
+//!     the parser's process-global name table in between; every configuration must be
+//!     accepted / refused, have the mapped keys, layer cells, overrides and name look-ups of the
+//!     same configuration read alone in a fresh table and those computed from its own names, and
+//!     on the running Kanata its keys pressed by physical code come out as the actions written.
 
 #[path = "c11_ref.rs"]
 mod refs;
@@ -46,6 +56,8 @@ mod paths;
 mod cell0;
 #[path = "c11_local.rs"]
 mod local;
+#[path = "c11_seq.rs"]
+mod seq;
 
 use crate::core::rng::Rng;
 use crate::core::sim::{render_hist, Ev, OutKind, Sim};
@@ -915,7 +927,7 @@ impl Check for C11Check {
         "C11"
     }
     fn n_cases(&self, ctx: &Ctx) -> u64 {
-        n_stepper() + n_names() + 1 + n_mapped(ctx) + paths::n_nop_cases() + paths::n_ident_cases(ctx) + cell0::n_cases() + local::n_cases(ctx)
+        n_stepper() + n_names() + 1 + n_mapped(ctx) + paths::n_nop_cases() + paths::n_ident_cases(ctx) + cell0::n_cases() + local::n_cases(ctx) + seq::n_cases(ctx)
     }
     fn describe(&self, ctx: &Ctx, idx: u64) -> Value {
         let (a, b) = (n_stepper(), n_names());
@@ -933,8 +945,10 @@ impl Check for C11Check {
             paths::describe_ident(ctx, idx - a - b - 1 - n_mapped(ctx) - paths::n_nop_cases())
         } else if idx < a + b + 1 + n_mapped(ctx) + paths::n_nop_cases() + paths::n_ident_cases(ctx) + cell0::n_cases() {
             cell0::describe(idx - a - b - 1 - n_mapped(ctx) - paths::n_nop_cases() - paths::n_ident_cases(ctx))
-        } else {
+        } else if idx < a + b + 1 + n_mapped(ctx) + paths::n_nop_cases() + paths::n_ident_cases(ctx) + cell0::n_cases() + local::n_cases(ctx) {
             local::describe(ctx, idx - a - b - 1 - n_mapped(ctx) - paths::n_nop_cases() - paths::n_ident_cases(ctx) - cell0::n_cases())
+        } else {
+            seq::describe(ctx, idx - a - b - 1 - n_mapped(ctx) - paths::n_nop_cases() - paths::n_ident_cases(ctx) - cell0::n_cases() - local::n_cases(ctx))
         }
     }
     fn run_case(&self, ctx: &Ctx, idx: u64) -> CaseOut {
@@ -960,13 +974,15 @@ impl Check for C11Check {
             paths::run_ident(&mut out, ctx, idx - a - b - 1 - n_mapped(ctx) - paths::n_nop_cases());
         } else if idx < a + b + 1 + n_mapped(ctx) + paths::n_nop_cases() + paths::n_ident_cases(ctx) + cell0::n_cases() {
             cell0::run_case(&mut out, ctx, idx - a - b - 1 - n_mapped(ctx) - paths::n_nop_cases() - paths::n_ident_cases(ctx));
-        } else {
+        } else if idx < a + b + 1 + n_mapped(ctx) + paths::n_nop_cases() + paths::n_ident_cases(ctx) + cell0::n_cases() + local::n_cases(ctx) {
             local::run_case(&mut out, ctx, idx - a - b - 1 - n_mapped(ctx) - paths::n_nop_cases() - paths::n_ident_cases(ctx) - cell0::n_cases());
+        } else {
+            seq::run_case(&mut out, ctx, idx - a - b - 1 - n_mapped(ctx) - paths::n_nop_cases() - paths::n_ident_cases(ctx) - cell0::n_cases() - local::n_cases(ctx));
         }
         out
     }
     fn rule(&self) -> String {
-        "Exhaustive and seed-independent: (1) every code 0..=766 that OsCode::from_u16 knows is pressed, auto-repeated twice by the OS while held (KeyValue::Repeat), and released in a real Kanata in six configurations (named via deflocalkeys-linux and mapped to itself in defsrc/deflayer; `_`; `use-defsrc`; not in defsrc with process-unmapped-keys yes; the transparent and the unmapped variant again with a layer-while-held active whose layer is transparent) and the OS stream must be press c / repeat c / repeat c / release c with the pinned KeyCode name of value c (nothing at all, also no repeat, for 0 and 0x2a4..=0x2ad; mouse-button events for 272..=276 and one scroll event for 745..=748, where repeat outputs are counted but not judged); (2) every string literal of str_to_oscode and of its default-mapping table, extracted at run time from the current parser/src/keys/mod.rs, must denote its pinned code through str_to_oscode, in defsrc, as a layer action, as a deflayermap input, as fork trigger, as switch key / key-history / input item (each one-case switch evaluated for all 749 codes), in unmod, and on both sides of defoverrides; (3) for every code: from_u16/as_u16 round trip, u16::from(osc) == KeyCode::from(osc) as u16, reverse conversion, Debug names of both sides equal to pinned tables (OsCode names cross-checked with the kernel's input-event-codes.h), plus the enum declarations parsed from the current sources: same discriminant sets, no duplicate, every (variant, value) as pinned. Random: (4) configurations with random defsrc subsets, deflayermap inputs (also overlapping defsrc / excepted keys, with _ / __ / ___), process-unmapped-keys no | yes | (all-except ...), optional deflocalkeys-linux with brand-new names and with built-in names bound to other codes (a name then stands for its configured number in defsrc, in the exception list and as deflayermap input); Cfg.mapped_keys must equal the set computed from that description. (5) Systematic, seed-independent scenarios plus seeded random histories: 134 small configurations in 41 families type a key K on every path that writes keys to the OS - sequences in the three input modes (mode from defcfg and from the (sequence t mode) leader; K first / second / third in the sequence; completed, cancelled by a foreign key, cancelled by the timeout, cancelled by K itself, K held and auto-repeated over the cancel, S-K, leader and K typed by one macro, virtual key whose macro types K), macro / macro-release-cancel / macro-cancel-on-press / macro-repeat, dynamic macro record + replay, zippychord with K pressed among the chord keys and with K as output-character-mapping (plain, S-, no-erase, single-output), unmod / unshift, defoverrides outputs (also with a modifier), one-shot / one-shot-release, defchords and defchordsv2, four tap-hold kinds, tap-dance / tap-dance-eager, fork / switch / multi, S- C-A- RA- prefixes, rpt / rpt-any, virtual keys through on-press / on-release / hold-for-duration and the direct fake-key operations, caps-word / caps-word-custom, held and switched layers; OS auto-repeats are part of the histories. Every scenario runs with K = nop0..nop9 (designed history + 6 / 200 random histories per key) and once with K = f24 (control). Judged: the raw OS stream (also redundant releases) of a nop run contains no press, repeat, release or raw-code event of 0x2a4..=0x2ad. The control run is only counted (did f24 reach the OS through this family?). (6) Exhaustive over the enumerated space: for 4 (quick) / 12 (thorough) codes x delegate-to-first-layer {no,yes} x transparent-key-resolution {absent,to-base-layer,layer-stack} x block-unmapped-keys {no,yes} x process-unmapped-keys {no,yes,(all-except f24)} x key in defsrc or not x first layer {deflayer: x, XX, _, the key, use-defsrc, (multi lctl x), (tap-hold ..); deflayermap: x, use-defsrc, key absent} x upper layer maps the key by {deflayer use-defsrc, deflayermap explicit use-defsrc, `_`, `__`, `___` wildcard use-defsrc, explicit transparent in deflayer / deflayermap above an identity} x activation {layer-while-held, layer-switch, transparent held layer over the switched layer, the first layer itself} (combinations the language rejects or in which the key is not intercepted are skipped; ~20 800 configurations in quick; two cases per (code, option combination) so that first layers that use use-defsrc themselves - which recurse without bound if the defsrc row is not the identity - cannot hide the others): press, two OS repeats, release must come out as press c / repeat c / repeat c / release c, nothing may stay held, and Layout.src_keys must be KeyCode(c) in column c (no-op in column 0 and for codes unknown to the OS layer). (7) Exhaustive over the enumerated space, plus seeded random histories: route by which cell (0,0) of a layer could be written {deflayermap `__ ACT`; `___ ACT`; `___ ACT` with a deflocalkeys-linux name bound to number 0 in defsrc; `_ ACT` with that name in defsrc; explicit deflayermap input `zz0 ACT` (name in defsrc or not); deflayer entry at the defsrc position of zz0} x ACT {f24, S-f24, (layer-switch mk), (layer-while-held mk), macro, (multi lalt f24), tap-hold, one-shot, alias, on-press tap-vkey, mlft, arbitrary-code, unicode: everything ACT can produce is a marker nothing else in the configuration produces} x the layer carrying the entry {first layer, held layer, switched-to layer, first and held layer} x process-unmapped-keys {no, yes, (all-except f22)} x block-unmapped-keys x delegate-to-first-layer x transparent-key-resolution {absent, to-base-layer, layer-stack} (combinations the language rejects skipped; 11 232 configurations). Every configuration has two defchordsv2 chords (all-released, first-release with a macro), a tap-hold-press, a one-shot, a macro and a sldr/defseq sequence on keys a..g that have entries of their own on every layer. Judged (a) on the parsed Cfg: cell [layer][0][0] of every layer and column 0 of the defsrc row are exactly NoOp (also in every accepted configuration of parts 4 and 6); (b) on a real Kanata, for 4 designed histories (chord activation with a key tapped while the chord is held and released; chord activation under a pending tap-hold, after a one-shot, first-release chord; macro + one-shot + sequence without any chord; press / OS repeat / release of code 0 itself where Cfg.mapped_keys contains it) and 2 (quick) / 30 (thorough) seeded random histories over the same keys (chord pairs, code 0, repeats), each wrapped in the activation of the layer and ending with a probe tap that shows the layer: no marker (F23/F24/LAlt key event, mouse button, raw code, unicode, scroll) reaches the OS, the OS stream including its timing equals that of the same configuration without the entry, the current and default layer at the end are the same, nothing stays held. (8) Systematic and seed-independent, plus seeded blocks: the denotation of a key name is the number given for it in deflocalkeys-linux if it is listed there, else its pinned built-in code - also when the listed name is one of the built-in names. (a) For every pinned key name N (526) x 2 target codes c != built-in(N) (one code that has built-in names of its own, one that has none; not 0, 240 or the code of KeyCode::ErrorRollOver) one configuration with (deflocalkeys-linux N c) is parsed and N must denote c through str_to_oscode, in defsrc (Cfg.mapped_keys is exactly {c} + the helper inputs), as layer action at coordinate c, as deflayermap input, fork trigger, switch key / key-history / input item (each evaluated for all 749 codes), in unmod, behind S-, inside multi / tap-hold / one-shot / release-key / macro, through a defvar, on both sides of defoverrides, and in process-unmapped-keys (all-except N) (all known keys minus c, so built-in(N) stays intercepted); in the same configuration a deflayermap layer written with another built-in name of built-in(N), a built-in name of c, an unrelated built-in name and the other entries of the block must have its entries exactly at those names' own codes. Sites the language reads differently are skipped and counted: action positions for the mouse action keywords, macro for the digit names (a delay), S- for names that themselves start with a modifier prefix symbol. (b) For every pinned key name x 1 (quick) / 3 (thorough) plain target codes (ordinary key, no modifier) 15 single-site configurations run on a real Kanata with the physical code c: defsrc identity (press, OS repeat, release), deflayermap input, (macro N), S-N, tap-hold-release-keys and tap-hold-except-keys key list (early tap by c while the tap-hold waits), defchordsv2 participant, defseq key, caps-word-custom shifted list, fork trigger, switch key, switch (input real N), defoverrides input, unmod, one-shot. Judged: the site reacts to c as the guide describes for the feature (marker key / the key itself appears), and the OS stream including timing equals the stream of the same configuration with N replaced by a brand-new name bound to c. (c) Seeded: 450 (quick) / 7 500 (thorough) deflocalkeys-linux blocks with 1-4 redefined built-in names - swap of two names (z<->y), rotation of three, independent entries (optionally with a brand-new name among them), two names for one code - every entry judged as in (a) with the other entries as bystanders, and all entries together in one defsrc mapped to themselves on a real Kanata (press c_i -> key c_i). Part 4's generator binds built-in names to other codes in about half of its deflocalkeys entries. Non-trivial = accepted configuration / code / name / scenario; distinct = code, name, mapped-set class, scenario family + variant, (code, option combination), (route, placement, option combination), redefined name, (block kind, size).".into()
+        "Exhaustive and seed-independent: (1) every code 0..=766 that OsCode::from_u16 knows is pressed, auto-repeated twice by the OS while held (KeyValue::Repeat), and released in a real Kanata in six configurations (named via deflocalkeys-linux and mapped to itself in defsrc/deflayer; `_`; `use-defsrc`; not in defsrc with process-unmapped-keys yes; the transparent and the unmapped variant again with a layer-while-held active whose layer is transparent) and the OS stream must be press c / repeat c / repeat c / release c with the pinned KeyCode name of value c (nothing at all, also no repeat, for 0 and 0x2a4..=0x2ad; mouse-button events for 272..=276 and one scroll event for 745..=748, where repeat outputs are counted but not judged); (2) every string literal of str_to_oscode and of its default-mapping table, extracted at run time from the current parser/src/keys/mod.rs, must denote its pinned code through str_to_oscode, in defsrc, as a layer action, as a deflayermap input, as fork trigger, as switch key / key-history / input item (each one-case switch evaluated for all 749 codes), in unmod, and on both sides of defoverrides; (3) for every code: from_u16/as_u16 round trip, u16::from(osc) == KeyCode::from(osc) as u16, reverse conversion, Debug names of both sides equal to pinned tables (OsCode names cross-checked with the kernel's input-event-codes.h), plus the enum declarations parsed from the current sources: same discriminant sets, no duplicate, every (variant, value) as pinned. Random: (4) configurations with random defsrc subsets, deflayermap inputs (also overlapping defsrc / excepted keys, with _ / __ / ___), process-unmapped-keys no | yes | (all-except ...), optional deflocalkeys-linux with brand-new names and with built-in names bound to other codes (a name then stands for its configured number in defsrc, in the exception list and as deflayermap input); Cfg.mapped_keys must equal the set computed from that description. (5) Systematic, seed-independent scenarios plus seeded random histories: 134 small configurations in 41 families type a key K on every path that writes keys to the OS - sequences in the three input modes (mode from defcfg and from the (sequence t mode) leader; K first / second / third in the sequence; completed, cancelled by a foreign key, cancelled by the timeout, cancelled by K itself, K held and auto-repeated over the cancel, S-K, leader and K typed by one macro, virtual key whose macro types K), macro / macro-release-cancel / macro-cancel-on-press / macro-repeat, dynamic macro record + replay, zippychord with K pressed among the chord keys and with K as output-character-mapping (plain, S-, no-erase, single-output), unmod / unshift, defoverrides outputs (also with a modifier), one-shot / one-shot-release, defchords and defchordsv2, four tap-hold kinds, tap-dance / tap-dance-eager, fork / switch / multi, S- C-A- RA- prefixes, rpt / rpt-any, virtual keys through on-press / on-release / hold-for-duration and the direct fake-key operations, caps-word / caps-word-custom, held and switched layers; OS auto-repeats are part of the histories. Every scenario runs with K = nop0..nop9 (designed history + 6 / 200 random histories per key) and once with K = f24 (control). Judged: the raw OS stream (also redundant releases) of a nop run contains no press, repeat, release or raw-code event of 0x2a4..=0x2ad. The control run is only counted (did f24 reach the OS through this family?). (6) Exhaustive over the enumerated space: for 4 (quick) / 12 (thorough) codes x delegate-to-first-layer {no,yes} x transparent-key-resolution {absent,to-base-layer,layer-stack} x block-unmapped-keys {no,yes} x process-unmapped-keys {no,yes,(all-except f24)} x key in defsrc or not x first layer {deflayer: x, XX, _, the key, use-defsrc, (multi lctl x), (tap-hold ..); deflayermap: x, use-defsrc, key absent} x upper layer maps the key by {deflayer use-defsrc, deflayermap explicit use-defsrc, `_`, `__`, `___` wildcard use-defsrc, explicit transparent in deflayer / deflayermap above an identity} x activation {layer-while-held, layer-switch, transparent held layer over the switched layer, the first layer itself} (combinations the language rejects or in which the key is not intercepted are skipped; ~20 800 configurations in quick; two cases per (code, option combination) so that first layers that use use-defsrc themselves - which recurse without bound if the defsrc row is not the identity - cannot hide the others): press, two OS repeats, release must come out as press c / repeat c / repeat c / release c, nothing may stay held, and Layout.src_keys must be KeyCode(c) in column c (no-op in column 0 and for codes unknown to the OS layer). (7) Exhaustive over the enumerated space, plus seeded random histories: route by which cell (0,0) of a layer could be written {deflayermap `__ ACT`; `___ ACT`; `___ ACT` with a deflocalkeys-linux name bound to number 0 in defsrc; `_ ACT` with that name in defsrc; explicit deflayermap input `zz0 ACT` (name in defsrc or not); deflayer entry at the defsrc position of zz0} x ACT {f24, S-f24, (layer-switch mk), (layer-while-held mk), macro, (multi lalt f24), tap-hold, one-shot, alias, on-press tap-vkey, mlft, arbitrary-code, unicode: everything ACT can produce is a marker nothing else in the configuration produces} x the layer carrying the entry {first layer, held layer, switched-to layer, first and held layer} x process-unmapped-keys {no, yes, (all-except f22)} x block-unmapped-keys x delegate-to-first-layer x transparent-key-resolution {absent, to-base-layer, layer-stack} (combinations the language rejects skipped; 11 232 configurations). Every configuration has two defchordsv2 chords (all-released, first-release with a macro), a tap-hold-press, a one-shot, a macro and a sldr/defseq sequence on keys a..g that have entries of their own on every layer. Judged (a) on the parsed Cfg: cell [layer][0][0] of every layer and column 0 of the defsrc row are exactly NoOp (also in every accepted configuration of parts 4 and 6); (b) on a real Kanata, for 4 designed histories (chord activation with a key tapped while the chord is held and released; chord activation under a pending tap-hold, after a one-shot, first-release chord; macro + one-shot + sequence without any chord; press / OS repeat / release of code 0 itself where Cfg.mapped_keys contains it) and 2 (quick) / 30 (thorough) seeded random histories over the same keys (chord pairs, code 0, repeats), each wrapped in the activation of the layer and ending with a probe tap that shows the layer: no marker (F23/F24/LAlt key event, mouse button, raw code, unicode, scroll) reaches the OS, the OS stream including its timing equals that of the same configuration without the entry, the current and default layer at the end are the same, nothing stays held. (8) Systematic and seed-independent, plus seeded blocks: the denotation of a key name is the number given for it in deflocalkeys-linux if it is listed there, else its pinned built-in code - also when the listed name is one of the built-in names. (a) For every pinned key name N (526) x 2 target codes c != built-in(N) (one code that has built-in names of its own, one that has none; not 0, 240 or the code of KeyCode::ErrorRollOver) one configuration with (deflocalkeys-linux N c) is parsed and N must denote c through str_to_oscode, in defsrc (Cfg.mapped_keys is exactly {c} + the helper inputs), as layer action at coordinate c, as deflayermap input, fork trigger, switch key / key-history / input item (each evaluated for all 749 codes), in unmod, behind S-, inside multi / tap-hold / one-shot / release-key / macro, through a defvar, on both sides of defoverrides, and in process-unmapped-keys (all-except N) (all known keys minus c, so built-in(N) stays intercepted); in the same configuration a deflayermap layer written with another built-in name of built-in(N), a built-in name of c, an unrelated built-in name and the other entries of the block must have its entries exactly at those names' own codes. Sites the language reads differently are skipped and counted: action positions for the mouse action keywords, macro for the digit names (a delay), S- for names that themselves start with a modifier prefix symbol. (b) For every pinned key name x 1 (quick) / 3 (thorough) plain target codes (ordinary key, no modifier) 15 single-site configurations run on a real Kanata with the physical code c: defsrc identity (press, OS repeat, release), deflayermap input, (macro N), S-N, tap-hold-release-keys and tap-hold-except-keys key list (early tap by c while the tap-hold waits), defchordsv2 participant, defseq key, caps-word-custom shifted list, fork trigger, switch key, switch (input real N), defoverrides input, unmod, one-shot. Judged: the site reacts to c as the guide describes for the feature (marker key / the key itself appears), and the OS stream including timing equals the stream of the same configuration with N replaced by a brand-new name bound to c. (c) Seeded: 450 (quick) / 7 500 (thorough) deflocalkeys-linux blocks with 1-4 redefined built-in names - swap of two names (z<->y), rotation of three, independent entries (optionally with a brand-new name among them), two names for one code - every entry judged as in (a) with the other entries as bystanders, and all entries together in one defsrc mapped to themselves on a real Kanata (press c_i -> key c_i). Part 4's generator binds built-in names to other codes in about half of its deflocalkeys entries. (9) Seeded sequences of configurations read by one process: 2-4 configurations, in half of the sequences followed by the first one again; each has no deflocalkeys at all | a deflocalkeys-linux block | only a block of another platform variant (win / winiov2 / wintercept / macos) | both | an empty linux block; a sequence has 1-4 theme names (built-in punctuation names ; ' [ ] - = ` \\ , . / + < yen ro ..., arbitrary pinned names, brand-new names ü ö ä ß é ñ ì ...) which the linux blocks bind to ordinary key codes, different ones in different configurations; every configuration writes theme names, names bound by earlier blocks and unrelated names in defsrc, as layer action at the defsrc position, as deflayermap input and action, in process-unmapped-keys (all-except ...), as fork trigger and in unmod; one configuration in six (not on the live-reload entry) may write a name that only another configuration of the sequence defines. The harness puts the parser's process-global name table back to its defaults once before the first configuration and never inside the sequence. Entry points: cfg::new_from_str (1 600 / 16 000 sequences), cfg::new_from_file on files in a scratch directory (600 / 6 000), and a real Kanata built with Kanata::new from the files of the sequence whose every configuration maps F21 to lrld-next: F21 is tapped and the real handle_time_ticks (do_live_reload -> cfg::new_from_file) is run until the reload is done (400 / 4 000 sequences). Judged for every configuration of the sequence, with denotation(name) = number in its own deflocalkeys-linux block, else pinned built-in code, else unknown: (a) absolute - it is refused if it writes an unknown name (accepted configurations: every written name known), Cfg.mapped_keys = defsrc + deflayermap inputs (+ all known keys - exceptions; codes 0 and 240 not judged), the first layer's cell at the code of each defsrc key is KeyCode(code of the action name), str_to_oscode right after the parse gives the configuration's denotation for every name of the sequence; (b) relation - accepted/refused, mapped keys, the Debug text of every cell of every layer, the overrides and those look-ups equal the ones of the same configuration read through the same entry point alone in a fresh table; (c) on the real Kanata after start-up and after every lrld-next: the running layout's cells equal those of the configuration started alone, every defsrc key pressed and released by its physical code gives press/release of the key its action name denotes (and the same stream as started alone), the name look-ups are those of the configuration, nothing stays held. Non-trivial = accepted configuration / code / name / scenario; distinct = code, name, mapped-set class, scenario family + variant, (code, option combination), (route, placement, option combination), redefined name, (block kind, size), (entry point, deflocalkeys shapes of the sequence).".into()
     }
     fn assumptions(&self) -> Vec<String> {
         vec![
@@ -979,6 +995,7 @@ impl Check for C11Check {
             "part 5: a zippychord output character mapped to a nop key (output-character-mappings) may be refused by the parser (it was typed with the unfiltered writer before the repair recorded in known_findings.json); the f24 control of that family must be accepted and reach the OS".into(),
             "part 7: the expected OS stream is the one the same tree produces for the same configuration without the entry (a relation, not a model): the histories press only keys that have entries of their own on every layer (and code 0), so the any-key entry stands for no key that was pressed and removing it must not change anything; what those keys, chords, macros, sequences themselves emit is the subject of the properties of those features. The absolute clause (no marker output, no change of layer) does not depend on that reference. 'No-op' in the inspection means the cell is exactly Action::NoOp (a transparent or use-defsrc cell would be resolved through other layers). Events of code 0 itself are only sent where Cfg.mapped_keys contains code 0 (counted: cell0_code0_not_intercepted_history_skipped otherwise). The fake (0,0) presses that macros / sequences report to the one-shot tracker do not go through the layers in the current implementation; the scenarios are run and judged all the same".into(),
             "part 8: docs/config.adoc calls a deflocalkeys name 'a key name of your choice that can be used in the rest of the configuration' and does not reserve the built-in names; a chosen name that coincides with a built-in one is therefore read as denoting the configured number everywhere (the unchanged tree looks the configured names up first). What is NOT judged: how a key name that the language also reads as something else behaves at the ambiguous site (mouse action keywords as actions, digits inside macro, names beginning with a modifier-prefix symbol behind S-) - those sites are skipped and counted; deflocalkeys variants of other platforms; names inside files read by other features (zippychord dictionary) and the Linux unicode typing helper (they are not 'the rest of the configuration'). Target codes exclude 0, 240 and the code of KeyCode::ErrorRollOver (251: it doubles as the O- marker of sequences, so `S-dnd` / `S-<any name for 251>` is refused whatever the name is - observed on the unchanged tree, unrelated to deflocalkeys). The real-Kanata runs compare with the same configuration under a brand-new name (a relation) and additionally require the documented reaction of the feature to the bound code; what else the feature emits belongs to that feature's property. The parser keeps the configured names in a process-global table; the harness restores the defaults after every case of parts 4 and 8 so that histories written with key names are not affected".into(),
+            "part 9: 'read alone in a fresh table' is the same tree reading the same text through the same entry point after the harness restored the default name table (replace_custom_str_oscode_mapping with an empty map, the state of a new process after its first parse); the harness never touches the table between the configurations of a sequence. The name look-ups after a parse are judged only for accepted configurations (where a refused parse leaves the table is not decided by the statement). A refused reload in the middle of a live-reload sequence is not generated (all names known there); configurations the language refuses for reasons of its own are refused alone too and only counted. The set of intercepted keys of the RUNNING process (the private static MAPPED_KEYS) cannot be read from outside; Cfg.mapped_keys of the parse and the running layout are judged instead. NOT covered, because not reachable from a harness that cannot edit /repo: the Linux event loop's decision whether a REL_WHEEL / REL_HWHEEL event of a mapped wheel code is intercepted (src/kanata/linux.rs handle_scroll is a private free function, its only caller Kanata::event_loop opens real evdev devices and never returns, MAPPED_KEYS is private; there is no /dev/input or /dev/uinput here) - the stepper injects wheel events directly into handle_input_event, so 'a mapped wheel direction is routed through the state machine also when the report carries a hi-res twin' is not observed by this check".into(),
             "part 6: with transparent-key-resolution to-base-layer AND delegate-to-first-layer yes the guide does not decide whether a transparent key of a held layer resolves to the switched layer below it or to the first layer, so the held-transparent-over-switched activation is skipped for that option pair; a transparent upper key is judged only above a first layer that is itself the identity at that position (what lies below a transparent key otherwise is C04's subject); key codes: letters, a modifier, a function key and codes that have no name (via deflocalkeys-linux), not the mouse pseudo keys or nop keys (their identity is part 1)".into(),
         ]
     }
@@ -1050,6 +1067,7 @@ impl Check for C11Check {
         v.extend(paths::nop_family_floors());
         v.extend(cell0::floors(_ctx));
         v.extend(local::floors(_ctx));
+        v.extend(seq::floors(_ctx));
         v
     }
     fn exhaustive(&self, _ctx: &Ctx) -> bool {
